@@ -1142,6 +1142,12 @@ theorem mem_storedIds (s : State) (kτ : Nat × Nat) (h : kτ ∈ storedIds s) :
   obtain ⟨k, hk, τ, hτ, rfl⟩ := h
   exact ⟨hk, hτ⟩
 
+theorem mem_loadEntries (s : State) (t : Nat) (hinv : Inv s t) (ord : List Nat) (kτ : Nat × Nat) (h : kτ ∈ loadEntries s ord) :
+    kτ.1 < s.next ∧ lookupStored s.stored kτ.1 = some kτ.2 := by
+  simp only [loadEntries, List.mem_filterMap, Option.map_eq_some_iff] at h
+  obtain ⟨k, _, τ, hτ, rfl⟩ := h
+  exact ⟨hinv.storedBound k τ hτ, hτ⟩
+
 /-- what a fold of `loadOne` over entries of the stored table preserves -/
 theorem load_fold (now : Nat) (l : List (Nat × Nat)) : ∀ (s : State) (n : Nat) (st : List (Nat × Nat)),
     s.next = n → s.stored = st → (∀ kτ ∈ l, kτ.1 < n ∧ lookupStored st kτ.1 = some kτ.2) → Inv s now → Cons s →
@@ -1177,6 +1183,10 @@ theorem inv2_step (c : Cfg) (s : State) (t now : Nat) (ev : Ev2) (h : Inv2 s t) 
   | stop k => exact ⟨inv_mono _ t now (inv_stop s t k h.1) ht, cons_stop s k h.2⟩
   | saveState => exact ⟨inv_mono _ t now (inv_save s t h.1) ht, cons_save s t h.1 h.2⟩
   | loadState => exact ⟨(load_props s t now h.1 ht h.2).1, (load_props s t now h.1 ht h.2).2.1⟩
+  | loadOrd ord =>
+    obtain ⟨a1, a2, _, _, _⟩ := load_fold now (loadEntries s ord) s s.next s.stored rfl rfl
+      (fun kτ hm => mem_loadEntries s t h.1 ord kτ hm) (inv_mono s t now h.1 ht) h.2
+    exact ⟨a1, a2⟩
 
 theorem inv2_run (c : Cfg) (evs : List (Nat × Ev2)) : ∀ (s : State) (t0 : Nat), Inv2 s t0 → wellTimed2 t0 evs = true →
     Inv2 (run2 c s evs) (endTime2 t0 evs) := by
@@ -1232,6 +1242,13 @@ theorem alive_step2 (c : Cfg) (s : State) (t k τ l now : Nat) (ev : Ev2) (hinv 
     obtain ⟨i, hi, h1, h2, _⟩ := h
     have := hinv.2 i hi kτ.2 (by rw [h1, ← e]; exact (mem_storedIds s kτ hm).2)
     omega
+  | loadOrd ord =>
+    simp only [step2]
+    refine holds_load_fold now k τ l hl (loadEntries s ord) s ?_ h
+    intro kτ hm e
+    obtain ⟨i, hi, h1, h2, _⟩ := h
+    have := hinv.2 i hi kτ.2 (by rw [h1, ← e]; exact (mem_loadEntries s t hinv.1 ord kτ hm).2)
+    omega
 
 theorem alive_not_destroyed2 (c : Cfg) (s : State) (t now : Nat) (ev : Ev2) (hinv : Inv2 s t) (ht : t ≤ now)
     (k τ l : Nat) (h : Holds s k τ l) (hl : l ≤ now) (hn : now < l + τ) :
@@ -1241,6 +1258,11 @@ theorem alive_not_destroyed2 (c : Cfg) (s : State) (t now : Nat) (ev : Ev2) (hin
   | stop j => rfl
   | saveState => rfl
   | loadState => simp only [step2]; rw [(load_props s t now hinv.1 ht hinv.2).2.2]
+  | loadOrd ord =>
+    simp only [step2]
+    obtain ⟨_, _, a3, _, _⟩ := load_fold now (loadEntries s ord) s s.next s.stored rfl rfl
+      (fun kτ hm => mem_loadEntries s t hinv.1 ord kτ hm) (inv_mono s t now hinv.1 ht) hinv.2
+    rw [a3]
 
 theorem C17_never_early2 (c : Cfg) (s : State) (t now : Nat) (ev : Ev2) (hinv : Inv2 s t) (ht : t ≤ now)
     (i : Inst) (hi : i ∈ s.insts) (hns : ev ≠ .stop i.id) (hgone : ∀ j ∈ (step2 c s now ev).1.insts, j.id ≠ i.id) :
@@ -1431,6 +1453,7 @@ theorem bal_step2 (c : Cfg) (s : State) (now : Nat) (ev : Ev2) (h : Bal s) : Bal
     intro k
     exact h k
   | loadState => exact bal_load_fold now _ s h
+  | loadOrd ord => exact bal_load_fold now _ s h
 
 theorem bal_run2 (c : Cfg) (evs : List (Nat × Ev2)) : ∀ s, Bal s → Bal (run2 c s evs) := by
   induction evs with
@@ -1581,6 +1604,7 @@ theorem C17_partial2 (c : Cfg) : C17_core2 c := by
     | stop j => simp [isTrigger2] at htr
     | saveState => simp [isTrigger2] at htr
     | loadState => simp [isTrigger2] at htr
+    | loadOrd _ => simp [isTrigger2] at htr
   · intro k kind habs hst
     exact C17_refused c _ now k kind habs hst
   · intro k τ kind habs hst hτ
@@ -2024,6 +2048,10 @@ theorem inv2_stepR (c : CfgR) (s : State) (t0 t : Nat) (incs : List Nat) (ev : E
     obtain ⟨a1, a2, _⟩ := loadKeys_fold (rdOf t incs) _ hhi (storedIds s) 0 s s.next s.stored rfl rfl
       (fun kτ hm => mem_storedIds s kτ hm) h0 h.2
     exact ⟨a1, a2⟩
+  | loadOrd ord =>
+    obtain ⟨a1, a2, _⟩ := loadKeys_fold (rdOf t incs) _ hhi (loadEntries s ord) 0 s s.next s.stored rfl rfl
+      (fun kτ hm => mem_loadEntries s _ h0 ord kτ hm) h0 h.2
+    exact ⟨a1, a2⟩
 
 theorem inv2_runR (c : CfgR) (evs : List Req) : ∀ (s : State) (t0 : Nat), Inv2 s t0 → wellTimedR t0 evs = true →
     Inv2 (runR c s evs) (endTimeR t0 evs) := by
@@ -2106,6 +2134,13 @@ theorem alive_stepR (c : CfgR) (hx : c.stampExact = true) (s : State) (t0 k τ l
     obtain ⟨i, hi, h1, h2, _⟩ := h
     have := hinv.2 i hi kτ.2 (by rw [h1, ← e]; exact (mem_storedIds s kτ hm).2)
     omega
+  | loadOrd ord =>
+    simp only [stepR]
+    refine holds_loadKeys (rdOf t incs) k τ l hlo (loadEntries s ord) 0 s ?_ h
+    intro kτ hm e
+    obtain ⟨i, hi, h1, h2, _⟩ := h
+    have := hinv.2 i hi kτ.2 (by rw [h1, ← e]; exact (mem_loadEntries s t0 hinv.1 ord kτ hm).2)
+    omega
 
 theorem alive_not_destroyedR (c : CfgR) (hx : c.stampExact = true) (s : State) (t0 k τ l t : Nat) (incs : List Nat)
     (ev : Ev2) (hinv : Inv2 s t0) (ht : t0 ≤ t) (h : Holds s k τ l) (hl : l ≤ t) (hn : t + incs.sum < l + τ) :
@@ -2170,6 +2205,11 @@ theorem alive_not_destroyedR (c : CfgR) (hx : c.stampExact = true) (s : State) (
     simp only [stepR]
     obtain ⟨_, _, a3⟩ := loadKeys_fold (rdOf t incs) _ hhi (storedIds s) 0 s s.next s.stored rfl rfl
       (fun kτ hm => mem_storedIds s kτ hm) h0 hinv.2
+    rw [a3]
+  | loadOrd ord =>
+    simp only [stepR]
+    obtain ⟨_, _, a3⟩ := loadKeys_fold (rdOf t incs) _ hhi (loadEntries s ord) 0 s s.next s.stored rfl rfl
+      (fun kτ hm => mem_loadEntries s _ h0 ord kτ hm) h0 hinv.2
     rw [a3]
 
 /-- **`C17_alive` for advancing clocks**, over whole request sequences: all requests end before `l + τ`. -/
@@ -2292,6 +2332,7 @@ theorem C17R_gone_after_trigger (c : CfgR) (s : State) (t0 t : Nat) (incs : List
   | stop j => simp [isTriggerR, isTrigger2] at htr
   | saveState => simp [isTriggerR, isTrigger2] at htr
   | loadState => simp [isTriggerR, isTrigger2] at htr
+  | loadOrd _ => simp [isTriggerR, isTrigger2] at htr
 
 /-! ### access restarts the timer / transparent restore — the stored timestamp is a read of THIS request -/
 
@@ -2473,6 +2514,7 @@ theorem stamp_ge_arrival (c : CfgR) (hx : c.stampExact = true) (s : State) (t0 t
   | stop _ => simp [touchesId] at htc
   | saveState => simp [touchesId] at htc
   | loadState => simp [touchesId] at htc
+  | loadOrd _ => simp [touchesId] at htc
 
 /-- **The lifetime statement with a clock that advances inside requests** ("never removed before last access +
 timeout", last access = ARRIVAL of the request).  After every well-timed history `h1`, let a successful request
@@ -2584,4 +2626,398 @@ example : (stepR ⟨true, true⟩ (rdOf 999 [1, 1, 1]) (runR ⟨true, true⟩ St
 #print axioms C17R_full_of_good
 #print axioms C17R_witness_trunc_full
 
+/-! ## Wave 6 -/
+
+/-! ### refinement: a request without increments is the constant-clock request of `step2` -/
+
+theorem state_ext (a b : State) (h1 : a.insts = b.insts) (h2 : a.stored = b.stored) (h3 : a.destroyed = b.destroyed)
+    (h4 : a.restored = b.restored) (h5 : a.next = b.next) (h6 : a.dropped = b.dropped) : a = b := by
+  cases a; cases b; simp_all
+
+theorem rdOf_nil (t n : Nat) : rdOf t [] n = t := by simp [rdOf]
+
+theorem filter_other_id (l : List Inst) (t k : Nat) (h : ∀ i ∈ l, i.id ≠ k) :
+    l.filter (fun i => !(i.id == k && expired t i)) = l ∧ l.filter (fun i => i.id == k && expired t i) = [] := by
+  constructor
+  · rw [List.filter_eq_self]; intro i hi; simp [h i hi]
+  · rw [List.filter_eq_nil_iff]; intro i hi; simp [h i hi]
+
+/-- with a constant clock the loop over the key snapshot is the one-pass sweep (ids unique) -/
+theorem sweepKeys_const (t : Nat) : ∀ (l pre : List Inst) (n : Nat) (s : State), s.insts = pre ++ l →
+    ((pre ++ l).map (·.id)).Nodup →
+    (sweepKeys (fun _ => t) (l.map (·.id)) n s).insts = pre ++ l.filter (fun i => !expired t i) ∧
+    (sweepKeys (fun _ => t) (l.map (·.id)) n s).destroyed = s.destroyed ++ (l.filter (expired t)).map (·.id) := by
+  intro l
+  induction l with
+  | nil => intro pre n s hs _; simp [sweepKeys, hs]
+  | cons x xs ih =>
+    intro pre n s hs hnd
+    simp only [List.map_cons, sweepKeys]
+    have hnd' : (pre.map (·.id) ++ x.id :: xs.map (·.id)).Nodup := by simpa using hnd
+    have hpre : ∀ i ∈ pre, i.id ≠ x.id := by
+      intro i hi e
+      have := (List.nodup_append.mp hnd').2.2 i.id (List.mem_map.mpr ⟨i, hi, rfl⟩) x.id (by simp)
+      exact this e
+    have hxs : ∀ i ∈ xs, i.id ≠ x.id := by
+      intro i hi e
+      have h2 := (List.nodup_cons.mp (List.nodup_append.mp hnd').2.1).1
+      exact h2 (e ▸ List.mem_map.mpr ⟨i, hi, rfl⟩)
+    obtain ⟨p1, p2⟩ := filter_other_id pre t x.id hpre
+    obtain ⟨q1, q2⟩ := filter_other_id xs t x.id hxs
+    by_cases hx : expired t x = true
+    · have e1 : (sweepOne t x.id s).insts = pre ++ xs := by
+        simp only [sweepOne, hs, List.filter_append, List.filter_cons, p1, q1]; simp [hx]
+      have e2 : (sweepOne t x.id s).destroyed = s.destroyed ++ [x.id] := by
+        simp only [sweepOne, hs, List.filter_append, List.filter_cons, p2, q2]; simp [hx]
+      obtain ⟨a, b⟩ := ih pre (n + 1) (sweepOne t x.id s) e1 (by
+        have : ((pre ++ xs).map (·.id)) = pre.map (·.id) ++ xs.map (·.id) := by simp
+        rw [this]
+        have h3 := List.nodup_append.mp hnd'
+        rw [List.nodup_append]
+        exact ⟨h3.1, (List.nodup_cons.mp h3.2.1).2, fun a ha b hb => h3.2.2 a ha b (List.mem_cons_of_mem _ hb)⟩)
+      refine ⟨by rw [a]; simp [hx], by rw [b, e2]; simp [hx]⟩
+    · have hx' : expired t x = false := by simpa using hx
+      have e1 : (sweepOne t x.id s).insts = (pre ++ [x]) ++ xs := by
+        simp only [sweepOne, hs, List.filter_append, List.filter_cons, p1, q1]; simp [hx']
+      have e2 : (sweepOne t x.id s).destroyed = s.destroyed := by
+        simp only [sweepOne, hs, List.filter_append, List.filter_cons, p2, q2]; simp [hx']
+      obtain ⟨a, b⟩ := ih (pre ++ [x]) (n + 1) (sweepOne t x.id s) e1 (by simpa using hnd)
+      refine ⟨by rw [a]; simp [hx'], by rw [b, e2]; simp [hx']⟩
+
+theorem sweepR_const (t n : Nat) (s : State) (hnd : (s.insts.map (·.id)).Nodup) :
+    sweepR (fun _ => t) n s = sweep t s := by
+  obtain ⟨a, b⟩ := sweepKeys_const t s.insts [] n s (by simp) (by simpa using hnd)
+  obtain ⟨g1, g2, g3, g4⟩ := sweepR_ghost (fun _ => t) n s
+  apply state_ext
+  · simpa [sweepR, sweep] using a
+  · exact g1
+  · simpa [sweepR, sweep] using b
+  · exact g3
+  · exact g2
+  · exact g4
+
+theorem loadKeys_const (t : Nat) (l : List (Nat × Nat)) : ∀ (n : Nat) (s : State),
+    loadKeys (fun _ => t) l n s = l.foldl (loadOne t) s := by
+  induction l with
+  | nil => intro n s; rfl
+  | cons x rest ih => intro n s; simp only [loadKeys, List.foldl_cons]; exact ih _ _
+
+/-- **Refinement.**  A request whose clock does not move (no increments), with exact timestamps, IS the request
+of the constant-clock machine `step2` at that clock value: same state, same answer.  (So everything proved about
+`step2` / `run2` is a statement about `stepR` / `runR` on such requests.) -/
+theorem stepR_const_eq_step2 (c : CfgR) (hx : c.stampExact = true) (s : State) (t0 t : Nat) (ev : Ev2)
+    (hinv : Inv s t0) (ht : t0 ≤ t) :
+    (stepR c (rdOf t []) s ev).1 = (step2 c.base s t ev).1 ∧ (stepR c (rdOf t []) s ev).2.1 = (step2 c.base s t ev).2 := by
+  have hrd : rdOf t [] = fun _ => t := by funext n; exact rdOf_nil t n
+  have hst : ∀ v, stampOf c v = v := stampOf_exact c hx
+  rw [hrd]
+  have hsw : ∀ (s1 : State) (h1 : Nat) (n : Nat), Inv s1 h1 → sweepR (fun _ => t) n s1 = sweep t s1 :=
+    fun s1 h1 n hi => sweepR_const t n s1 hi.nodup
+  have htouch : ∀ (s1 : State) (j n : Nat), Inv s1 t → sweepR (fun _ => t) n (touch t j s1) = sweep t (touch t j s1) :=
+    fun s1 j n hi => hsw _ t n (inv_touch s1 t t j hi (Nat.le_refl _))
+  have h0 : Inv s t := inv_mono s t0 t hinv ht
+  cases ev with
+  | old e =>
+    cases e with
+    | create τ =>
+      simp only [stepR, createR, step2, step, create, hst, hsw s t 0 h0]
+      first | exact ⟨rfl, rfl⟩ | exact ⟨trivial, trivial⟩ | simp
+    | metrics => simp only [stepR, step2, step, hsw s t 0 h0]; first | exact ⟨rfl, rfl⟩ | exact ⟨trivial, trivial⟩ | simp
+    | fullMetrics => simp only [stepR, step2, step, hsw s t 0 h0]; first | exact ⟨rfl, rfl⟩ | exact ⟨trivial, trivial⟩ | simp
+    | access k kind =>
+      simp only [stepR, accessR, step2, step, access, hst]
+      have hie := inv_ensure s t0 t k hinv ht
+      cases hen : ensure s t k with
+      | mk s1 b =>
+        rw [hen] at hie
+        cases b with
+        | false => first | exact ⟨rfl, rfl⟩ | exact ⟨trivial, trivial⟩ | simp
+        | true =>
+          simp only [htouch s1 k _ hie]
+          split <;> first | exact ⟨rfl, rfl⟩ | exact ⟨trivial, trivial⟩ | simp
+    | keepAlive k =>
+      simp only [stepR, keepAliveR, step2, step, keepAlive, hst, CfgR.base]
+      rcases c with ⟨ka, sx⟩
+      cases ka with
+      | true =>
+        simp only [if_true]
+        have hie := inv_ensure s t0 t k hinv ht
+        cases hen : ensure s t k with
+        | mk s1 b =>
+          rw [hen] at hie
+          cases b with
+          | false => first | exact ⟨rfl, rfl⟩ | exact ⟨trivial, trivial⟩ | simp
+          | true => simp only [htouch s1 k _ hie]; first | exact ⟨rfl, rfl⟩ | exact ⟨trivial, trivial⟩ | simp
+      | false =>
+        simp only [Bool.false_eq_true, if_false]
+        cases hh : hasId s k with
+        | false => first | exact ⟨rfl, rfl⟩ | exact ⟨trivial, trivial⟩ | simp
+        | true => simp only [htouch s k _ h0]; first | exact ⟨rfl, rfl⟩ | exact ⟨trivial, trivial⟩ | simp
+  | stop k => first | exact ⟨rfl, rfl⟩ | exact ⟨trivial, trivial⟩ | simp
+  | saveState => first | exact ⟨rfl, rfl⟩ | exact ⟨trivial, trivial⟩ | simp
+  | loadState => simp only [stepR, step2, loadState, loadKeys_const]; first | exact ⟨rfl, rfl⟩ | exact ⟨trivial, trivial⟩ | simp
+  | loadOrd ord => simp only [stepR, step2, loadKeys_const]; first | exact ⟨rfl, rfl⟩ | exact ⟨trivial, trivial⟩ | simp
+
+def liftR (evs : List (Nat × Ev2)) : List Req := evs.map (fun e => (e.1, [], e.2))
+
+theorem wellTimedR_lift (evs : List (Nat × Ev2)) : ∀ t0, wellTimedR t0 (liftR evs) = wellTimed2 t0 evs := by
+  induction evs with
+  | nil => intro t0; rfl
+  | cons e rest ih =>
+    intro t0; obtain ⟨t, ev⟩ := e
+    simp only [liftR, List.map_cons, wellTimedR, wellTimed2, List.sum_nil, Nat.add_zero]
+    rw [← ih t]; rfl
+
+/-- whole histories: `runR` on requests without increments is `run2` -/
+theorem runR_lift_eq_run2 (c : CfgR) (hx : c.stampExact = true) (evs : List (Nat × Ev2)) : ∀ (s : State) (t0 : Nat),
+    Inv2 s t0 → wellTimed2 t0 evs = true → runR c s (liftR evs) = run2 c.base s evs := by
+  induction evs with
+  | nil => intro s t0 _ _; rfl
+  | cons e rest ih =>
+    intro s t0 hinv hw
+    obtain ⟨t, ev⟩ := e
+    simp only [wellTimed2, Bool.and_eq_true, decide_eq_true_eq] at hw
+    have h1 := (stepR_const_eq_step2 c hx s t0 t ev hinv.1 hw.1).1
+    simp only [liftR, List.map_cons, runR, run2]
+    rw [h1]
+    exact ih _ t (inv2_step c.base s t0 t ev hinv hw.1) hw.2
+
+/-! ### the destroy balance with advancing clocks -/
+
+theorem bal_sweepOne (t k : Nat) (s : State) (h : Bal s) : Bal (sweepOne t k s) := by
+  intro j
+  have hp := count_partition s.insts (fun i => i.id == k && expired t i) j
+  have := h j
+  have hc : created (sweepOne t k s) j = created s j := rfl
+  simp only [incarnations, hc] at this ⊢
+  simp only [sweepOne, List.count_append]
+  omega
+
+theorem bal_sweepR (rd : Rd) (n : Nat) (s : State) (h : Bal s) : Bal (sweepR rd n s) :=
+  sweepKeys_pres Bal rd (fun n k s hs => bal_sweepOne (rd n) k s hs) _ n s h
+
+theorem bal_loadKeys (rd : Rd) (l : List (Nat × Nat)) : ∀ (n : Nat) (s : State), Bal s → Bal (loadKeys rd l n s) := by
+  induction l with
+  | nil => intro n s h; exact h
+  | cons x rest ih => intro n s h; exact ih _ _ (bal_loadOne (rd n) s x h)
+
+theorem bal_stepR (c : CfgR) (rd : Rd) (s : State) (ev : Ev2) (h : Bal s) : Bal (stepR c rd s ev).1 := by
+  cases ev with
+  | old e =>
+    cases e with
+    | create τ =>
+      simp only [stepR, createR]
+      have h1 := bal_sweepR rd 0 s h
+      intro k
+      have := h1 k
+      simp only [incarnations, created, List.count_append, List.map_append, List.map_cons, List.map_nil, List.count_singleton] at this ⊢
+      by_cases e : (sweepR rd 0 s).next = k
+      · have h1 : ¬ k < (sweepR rd 0 s).next := by omega
+        have h2 : k < (sweepR rd 0 s).next + 1 := by omega
+        have e' : ((sweepR rd 0 s).next == k) = true := by simpa using e
+        simp only [h1, h2, e', ↓reduceIte] at this ⊢
+        omega
+      · have e' : ((sweepR rd 0 s).next == k) = false := by simpa using e
+        by_cases e2 : k < (sweepR rd 0 s).next
+        · have h2 : k < (sweepR rd 0 s).next + 1 := by omega
+          simp only [e2, h2, e', Bool.false_eq_true, ↓reduceIte] at this ⊢
+          omega
+        · have h2 : ¬ k < (sweepR rd 0 s).next + 1 := by omega
+          simp only [e2, h2, e', Bool.false_eq_true, ↓reduceIte] at this ⊢
+          omega
+    | access j kind =>
+      simp only [stepR, accessR]
+      have he := bal_ensure s (rd 0) j h
+      cases hen : ensure s (rd 0) j with
+      | mk s1 b =>
+        rw [hen] at he
+        cases b with
+        | false => exact h
+        | true =>
+          simp only
+          have h2 := bal_sweepR rd ((if hasId s j then 0 else 1) + 1) _ (bal_touch (stampOf c (rd (if hasId s j then 0 else 1))) j s1 he)
+          split
+          · exact h2
+          · exact bal_applyKind _ _ kind h2
+    | keepAlive j =>
+      simp only [stepR, keepAliveR]
+      cases hr : c.keepAliveRestores with
+      | true =>
+        simp only [if_true]
+        have he := bal_ensure s (rd 0) j h
+        cases hen : ensure s (rd 0) j with
+        | mk s1 b =>
+          rw [hen] at he
+          cases b with
+          | false => exact h
+          | true => exact bal_sweepR rd _ _ (bal_touch _ j s1 he)
+      | false =>
+        simp only [Bool.false_eq_true, if_false]
+        cases hasId s j with
+        | false => exact h
+        | true => exact bal_sweepR rd _ _ (bal_touch _ j s h)
+    | metrics => exact bal_sweepR rd 0 s h
+    | fullMetrics => exact bal_sweepR rd 0 s h
+  | stop j => exact bal_stop s j h
+  | saveState => intro k; exact h k
+  | loadState => exact bal_loadKeys rd _ 0 s h
+  | loadOrd ord => exact bal_loadKeys rd _ 0 s h
+
+theorem bal_runR (c : CfgR) (evs : List Req) : ∀ s, Bal s → Bal (runR c s evs) := by
+  induction evs with
+  | nil => intro s h; exact h
+  | cons e rest ih => intro s h; obtain ⟨t, incs, ev⟩ := e; exact ih _ (bal_stepR c (rdOf t incs) s ev h)
+
+/-- **Destroy balance with advancing clocks** (`release-count`): after every history of requests with arbitrary
+intra-request clocks, for every id: incarnations = destroy() calls + dropped without destroy() + (live ? 1 : 0). -/
+theorem C17R_destroy_balance (c : CfgR) (evs : List Req) (k : Nat) :
+    incarnations (runR c State.init evs) k = (runR c State.init evs).destroyed.count k +
+      (runR c State.init evs).dropped.count k + ((runR c State.init evs).insts.map (·.id)).count k :=
+  bal_runR c evs State.init bal_init k
+
+/-- no incarnation destroyed twice, none destroyed while it is live -/
+theorem C17R_destroyed_at_most_once (c : CfgR) (evs : List Req) (k : Nat) :
+    (runR c State.init evs).destroyed.count k + (if hasId (runR c State.init evs) k then 1 else 0)
+      ≤ incarnations (runR c State.init evs) k := by
+  have hb := C17R_destroy_balance c evs k
+  generalize runR c State.init evs = s at hb ⊢
+  by_cases hh : hasId s k = true
+  · obtain ⟨i, hi, hid⟩ := (hasId_iff s k).mp hh
+    have : 0 < (s.insts.map (·.id)).count k := List.count_pos_iff.mpr (List.mem_map.mpr ⟨i, hi, hid⟩)
+    simp only [hh, ↓reduceIte]; omega
+  · have hh' : hasId s k = false := by simpa using hh
+    simp only [hh', Bool.false_eq_true, ↓reduceIte]; omega
+
+/-- only stop-instance and load-state drop an object without destroy(): every other request leaves `dropped` -/
+theorem droppedR_old (c : CfgR) (rd : Rd) (s : State) (e : Ev) : (stepR c rd s (.old e)).1.dropped = s.dropped := by
+  have hen : ∀ j, (ensure s (rd 0) j).1.dropped = s.dropped := by
+    intro j; unfold ensure; split
+    · rfl
+    · split <;> rfl
+  have hsw : ∀ (n : Nat) (s1 : State), (sweepR rd n s1).dropped = s1.dropped := fun n s1 => (sweepR_ghost rd n s1).2.2.2
+  cases e with
+  | create τ => simp only [stepR, createR]; exact hsw 0 s
+  | metrics => exact hsw 0 s
+  | fullMetrics => exact hsw 0 s
+  | access j kind =>
+    simp only [stepR, accessR]
+    have := hen j
+    cases he : ensure s (rd 0) j with
+    | mk s1 b =>
+      rw [he] at this
+      cases b with
+      | false => rfl
+      | true =>
+        simp only
+        split
+        · rw [hsw]; exact this
+        · rw [(applyKind_ghost _ _ kind).2.2.2.2, hsw]; exact this
+  | keepAlive j =>
+    simp only [stepR, keepAliveR]
+    cases c.keepAliveRestores with
+    | true =>
+      simp only [if_true]
+      have := hen j
+      cases he : ensure s (rd 0) j with
+      | mk s1 b =>
+        rw [he] at this
+        cases b with
+        | false => rfl
+        | true => simp only; rw [hsw]; exact this
+    | false =>
+      simp only [Bool.false_eq_true, if_false]
+      cases hasId s j with
+      | false => rfl
+      | true => simp only; rw [hsw]; rfl
+
+/-! ### the expiry comparison is on the full duration -/
+
+theorem expLookup_good (o : ExpObs) (h : expiryIsFullDuration o = true) (idle τ : Nat) (v : Bool)
+    (hl : expLookup o idle τ = some v) : v = fullCmp idle τ := by
+  induction o with
+  | nil => simp [expLookup] at hl
+  | cons x rest ih =>
+    obtain ⟨i, t, b⟩ := x
+    simp only [expiryIsFullDuration, List.all_cons, Bool.and_eq_true, beq_iff_eq] at h
+    simp only [expLookup] at hl
+    split at hl
+    · rename_i he
+      obtain ⟨rfl, rfl⟩ := he
+      cases hl; exact h.1
+    · exact ih (by simpa [expiryIsFullDuration] using h.2) hl
+
+theorem expOf_good (o : ExpObs) (h : expiryIsFullDuration o = true) : expOf o = fullCmp := by
+  funext idle τ
+  simp only [expOf]
+  cases hl : expLookup o idle τ with
+  | none => rfl
+  | some v => simp [expLookup_good o h idle τ v hl]
+
+/-- the machine's test is the full-duration comparison of the idle time -/
+theorem expired_eq_fullCmp (now : Nat) (i : Inst) (h : i.last ≤ now) : expired now i = fullCmp (now - i.last) i.timeout := by
+  simp only [expired, fullCmp]; congr 1; apply propext; omega
+
+/-- the two lifetime clauses of the statement for ONE instance, with the comparison as a parameter: gone once the
+full timeout has elapsed; still there before -/
+def LifetimeClauses (cmp : ExpCmp) : Prop :=
+  (∀ last τ now, last + τ ≤ now → cmp (now - last) τ = true) ∧
+  (∀ last τ now, last ≤ now → now < last + τ → cmp (now - last) τ = false)
+
+/-- they hold for a comparison iff it compares the WHOLE idle time with the WHOLE timeout, at every scale (µs,
+days): no component, no truncation -/
+theorem lifetime_iff_full (cmp : ExpCmp) : LifetimeClauses cmp ↔ ∀ idle τ, cmp idle τ = fullCmp idle τ := by
+  constructor
+  · rintro ⟨h1, h2⟩ idle τ
+    by_cases h : τ ≤ idle
+    · have := h1 0 τ idle (by omega); simpa [fullCmp, h] using this
+    · have := h2 0 τ idle (by omega) (by omega); simpa [fullCmp, h] using this
+  · intro h
+    refine ⟨fun last τ now hh => ?_, fun last τ now h1 h2 => ?_⟩
+    · rw [h]; simp only [fullCmp, decide_eq_true_eq]; omega
+    · rw [h]; simp only [fullCmp, decide_eq_false_iff_not]; omega
+
+theorem lifetime_of_good (o : ExpObs) (h : expiryIsFullDuration o = true) : LifetimeClauses (expOf o) :=
+  (lifetime_iff_full _).mpr (fun idle τ => by rw [expOf_good o h])
+
+/-- Negation witness `expiry-not-full-duration`: an observed verdict of the real sweep differs from the
+full-duration comparison -/
+theorem C17_witness_expiry (o : ExpObs) (idle τ : Nat) (h : expDeviatesAt o idle τ = true) : ¬ LifetimeClauses (expOf o) := by
+  intro hl
+  have := (lifetime_iff_full _).mp hl idle τ
+  simp [expDeviatesAt, this] at h
+
+/-- the seeded comparison never expires a timeout of a day or more … -/
+theorem secondsCmp_day_never (idle τ : Nat) (h : dayMicros ≤ τ) : secondsCmp idle τ = false := by
+  unfold dayMicros at h
+  unfold secondsCmp dayMicros
+  rw [decide_eq_false_iff_not]
+  have h1 : idle % 86400000000 < 86400000000 := Nat.mod_lt _ (by omega)
+  have h2 := Nat.div_mul_le_self (idle % 86400000000) 1000000
+  omega
+
+/-- … and expires a sub-second timeout only at the next whole second of idle time -/
+theorem secondsCmp_late (idle τ : Nat) (h1 : 0 < τ) (h2 : idle < 1000000) : secondsCmp idle τ = false := by
+  unfold secondsCmp dayMicros
+  rw [decide_eq_false_iff_not]
+  have : idle % 86400000000 = idle := Nat.mod_eq_of_lt (by omega)
+  rw [this, Nat.div_eq_of_lt h2]; omega
+
+theorem secondsCmp_not_lifetime : ¬ LifetimeClauses secondsCmp := by
+  intro h
+  have := (lifetime_iff_full _).mp h 86400000000 86400000000
+  rw [secondsCmp_day_never 86400000000 86400000000 (by unfold dayMicros; omega)] at this
+  unfold fullCmp at this
+  have h2 : decide (86400000000 ≤ 86400000000) = true := decide_eq_true (Nat.le_refl _)
+  rw [h2] at this; cases this
+
+#print axioms stepR_const_eq_step2
+#print axioms runR_lift_eq_run2
+#print axioms C17R_destroy_balance
+#print axioms C17R_destroyed_at_most_once
+#print axioms droppedR_old
+#print axioms lifetime_iff_full
+#print axioms lifetime_of_good
+#print axioms C17_witness_expiry
+#print axioms secondsCmp_day_never
+#print axioms secondsCmp_not_lifetime
 end Bptk.C17
